@@ -27,6 +27,7 @@
 // The oracle on the T records is in tools/props/C15.py.
 #include REPO_STATIC
 #include <stdio.h>
+#include <errno.h>
 #include <stdlib.h>
 #include <string.h>
 #include <inttypes.h>
@@ -457,6 +458,24 @@ static void scenario_refill(void) {
     if (q == NULL) nulls++; else { memset(q, 5, 4096); mi_free(q); }
   }
   printf("T count %s refill_rounds %d\nT count %s refill_null %d\n", SCN, rounds, SCN, nulls);
+  // the arena is full (one huge block live) and the bound heap is the default heap: the entry points that go through the default heap
+  // must report failure the documented way -- mi_posix_memalign: ENOMEM and the out-parameter untouched; the others: NULL
+  void* big = mi_heap_malloc(h, (size_t)20 << 20);
+  if (big != NULL) {
+    mi_heap_t* old = mi_heap_set_default(h);
+    void* sentinel = (void*)0x5EED; void* out = sentinel;
+    int rc = mi_posix_memalign(&out, 64, (size_t)20 << 20);
+    int bad = (rc != ENOMEM) + (out != sentinel) * 2;
+    static const size_t tiny[] = { 1, 2, 8, 100 };       // also the smallest requests (no page of the heap has a free block: they need a segment)
+    for (int i = 0; i < 4; i++) { void* o2 = sentinel; int rc2 = mi_posix_memalign(&o2, 8, tiny[i]); if (rc2 == 0 && o2 != NULL && o2 != sentinel) { mi_free(o2); } else if (rc2 != ENOMEM || o2 != sentinel) bad |= 32; }
+    void* m1 = mi_memalign(64, (size_t)20 << 20); void* m2 = mi_aligned_alloc(64, (size_t)20 << 20); void* m3 = mi_calloc(20, (size_t)1 << 20);
+    bad += (m1 != NULL) * 4 + (m2 != NULL) * 8 + (m3 != NULL) * 16;
+    mi_heap_set_default(old);
+    if (rc == 0 && out != sentinel && out != NULL) mi_free(out);
+    mi_free(m1); mi_free(m2); mi_free(m3);
+    printf("T count %s full_arena_failure_bad %d\n", SCN, bad);
+    mi_free(big);
+  }
 }
 
 // the entry points WITHOUT the `_ex` out-parameter (they pass arena_id = NULL down): mi_reserve_os_memory, mi_manage_os_memory
